@@ -95,6 +95,13 @@ def best(cands):
     if len(cands) <= 1:
         pass
     return cands[0]
+
+def owners(groups):
+    back = {}
+    for i, group in enumerate(groups):
+        for x in group:
+            back[x] = i
+    return back
 '''
     good = '''
 def make(a, opt=None):
@@ -145,10 +152,17 @@ def best(cands):
     if len(cands) == 0:
         return None
     return cands[0]
+
+def owners(groups):
+    back = {}
+    for i, group in enumerate(groups):
+        for x in group:
+            back.setdefault(x, []).append(i)
+    return back
 '''
     rel = 'cirq-core/cirq/work/zz_fixture.py'
     base = core.Repo()
-    for src, want in ((bad, {'z_fwd': 1, 'z_drop': 1, 'z_pair': 2, 'z_get': 1, 'z_ctor': 1, 'z_opt': 1, 'z_gen': 1, 'z_memo': 1, 'z_first': 1}), (good, {})):
+    for src, want in ((bad, {'z_fwd': 1, 'z_drop': 1, 'z_pair': 2, 'z_get': 1, 'z_ctor': 1, 'z_opt': 1, 'z_gen': 1, 'z_memo': 1, 'z_first': 1, 'z_inv': 1}), (good, {})):
         r = core.Repo(overlay={rel: src}, base=base)
         ctx = report.Ctx('C18', 'quick', r)
         general.apply(ctx, 'C18')
